@@ -109,6 +109,7 @@ let print_out = function
   | OSendAll (t, m) -> out_line (Printf.sprintf "%d SENDALL %s" (int_of_z t) (tok_of_message m))
   | OSignal (t, ob, sg, p) -> out_line (Printf.sprintf "%d SIG %d %s %s" (int_of_z t) (int_of_n ob) (sig_name sg) (tok_of_payload p))
   | OPoll (ob, f, b) -> out_line (Printf.sprintf "POLL %d %s %s" (int_of_n ob) (tok_of_bool f) (tok_of_bstr b))
+  | OLook rs -> out_line (Printf.sprintf "LOOKUP [%s]" (tok_of_list tok_of_record rs))
   | OOutOfFuel -> out_line "OUTOFFUEL"
 let out_of_line l =
   match words l with
@@ -118,6 +119,7 @@ let out_of_line l =
     OSignal (z_of_int (int_of_string t), n_of_int (int_of_string ob), n_of_int c, payload_of_tok c p)
   | ["POLL"; ob; f; b] -> OPoll (n_of_int (int_of_string ob), bool_of_tok f, bstr_of_tok b)
   | ["OUTOFFUEL"] -> OOutOfFuel
+  | ["LOOKUP"; rs] -> OLook (list_of_tok record_of_tok (strip_brackets rs))
   | _ -> failwith ("actor output: " ^ l)
 let print_groups gs = List.iter (fun g -> List.iter print_out g; out_line ".") gs
 
@@ -191,6 +193,21 @@ let run_mon_hostname args lines =
      | _ -> failwith "mon-hostname: first operation must be HOSTNAME")
   | _ -> failwith "mon-hostname: short trace"
 
+(* resolver: NEW c cache / CADD c rec j / NEW 0 resolver name c|- / JITTER j / CLOOKUP c name type *)
+let resolver_api ws l =
+  match ws with
+  | ["NEW"; _; "cache"] -> RNop
+  | ["CADD"; _; r; j] -> RCadd (record_of_tok r, z_of_int (int_of_string j))
+  | ["NEW"; _; "resolver"; name; _] -> RNew (bstr_of_tok name)
+  | ["JITTER"; j] -> RJitter (z_of_int (int_of_string j))
+  | ["CLOOKUP"; _; n; ty] -> RLookup (bstr_of_tok n, n_of_int (int_of_string ty))
+  | _ -> failwith ("resolver operation: " ^ l)
+let run_resolver lines =
+  print_groups (res_run fuel_actor (List.map (aop_of_line resolver_api) lines)); out_line "."
+let run_mon_resolver lines =
+  let tr = List.filter (fun (s, _) -> s <> "END") (group_trace (fun s -> s) out_of_line lines) in
+  print_verdict (mon_resolver (List.map (fun (s, _) -> aop_of_line resolver_api s) tr) (List.map snd tr))
+
 (* ---------------- main ---------------- *)
 let engines : (string * (string list -> string list -> unit)) list ref = ref []
 let register name f = engines := (name, f) :: !engines
@@ -202,7 +219,9 @@ let () =
   register "prober" (fun _ lines -> run_prober lines);
   register "mon-prober" (fun _ lines -> run_mon_prober lines);
   register "hostname" run_hostname;
-  register "mon-hostname" run_mon_hostname
+  register "mon-hostname" run_mon_hostname;
+  register "resolver" (fun _ lines -> run_resolver lines);
+  register "mon-resolver" (fun _ lines -> run_mon_resolver lines)
 
 let flush_script hdr lines =
   match hdr with
